@@ -23,6 +23,7 @@ def has_alias_nullable_field(api):
 
 
 _CTXNUM = re.compile(r'-\d+')
+LEXER_REWRITES = re.compile('[\x0b\x0c\x1c\x1d\x1e\x85\u2028\u2029\r]|"[^"\n]*    [^"\n]*"')
 
 
 def run_valid(case, rec):
@@ -37,7 +38,13 @@ def run_valid(case, rec):
         tag = ''
         if payload.msg.startswith('Missing field') and has_alias_nullable_field(api):
             tag = '|model-has-field-typed-by-alias-of-nullable'
-        rec.violation('C01|refused|' + front.msg_template(payload.msg) + tag,
+        sig = 'C01|refused|' + front.msg_template(payload.msg) + tag
+        if LEXER_REWRITES.search(''.join(t for _, t in specs)):
+            # the lexer's indentation stripping rewrites such string literals (C02 finding
+            # string-linebreaks-normalised / string-indent-run-removed); a refusal of such a spec
+            # is attributed to that root cause
+            sig = 'C01|refused|spec-has-a-string-literal-the-lexer-rewrites'
+        rec.violation(sig,
                       'a spec obeying every language rule was refused: %r' % (payload,), case=case, human=specs)
     elif kind in ('escape', 'hang'):
         rec.note('valid_spec_crashed(reported by C03):' + (core.stone_frame_sig(payload) if payload else 'hang'))
